@@ -446,7 +446,11 @@ class TraceChainsSearch(Contract):
             return SV(z3.Int(f"nn_idx_{k}")), SV(z3.Real(f"nn_dist_{k}"))
 
         it = Interp("ribana", common.base_globals(), contracts={"get_nn_dist": nn_stub})
-        f = it.block_function("trace_chains", lambda s: s.startswith("first_coord = ") and "reshape" not in s, lambda s: s.startswith("remain_exit[used_idx] = False"),
+        # the block is the beginning of the branch `if nfm_df.size != 0:` (found structurally, so that a renamed local does not lose it)
+        import ast
+        anchor = next((n.body[0] for n in ast.walk(it.mod.find("trace_chains")) if isinstance(n, ast.If) and ast.unparse(n.test) == "nfm_df.size != 0"), None)
+        first_src = ast.unparse(anchor) if anchor is not None else "first_coord = "
+        f = it.block_function("trace_chains", lambda s: s == first_src or (anchor is None and s.startswith(first_src)), lambda s: s.startswith("remain_exit[used_idx] = False"),
                               ["ch_m", "used_idx", "remain_entry", "remain_exit", "kdt_entry", "kdt_exit", "p_coord", "max_distance", "min_distance"],
                               ["nm_idx", "nm_dist", "first_idx", "first_dist"])
 
